@@ -38,7 +38,7 @@ def shards(tier, seed):
 
 def floors(tier):
     f = {"pairs:equal_state_diff_presentation": 1000, "pairs:sign_only": 1000, "fidelity:calls": 30000,
-         "eq:calls": 10000, "canonical:calls": 10000, "infidelity:calls": 3000, "pairs:nonzero_signs": 10000, "pairs:low_sign_presentations": 500}
+         "eq:calls": 10000, "canonical:calls": 10000, "infidelity:calls": 3000, "pairs:nonzero_signs": 10000, "pairs:low_sign_presentations": 500, "metric_reuse:evaluations": 2000}
     for v in ("0", "0.125", "0.25", "0.5", "1"):
         f["overlap3:" + v] = 1
     return f
@@ -103,6 +103,9 @@ def run_shard(spec, ctx):
                 d = abs(np.vdot(dense.state_of_group(a), dense.state_of_group(b))) ** 2
                 assert abs(d - ref) < 1e-9, "oracle disagreement (pauli closed form vs dense)"
             check_pair(a, b, ref, ctx, rng, {"fam": fam, "n": n, "seed": [spec["seed"], spec["shard"], k]}, full=True)
+            if k % 6 == 0:
+                c = pauli.scramble_generators(rng, b) if k % 12 == 0 else pauli.random_stabilizer_group(rng, n)
+                check_metric_reuse([a, b, c], int(rng.integers(1 << 30)), ctx)
 
 
 def _ser(t):
@@ -110,6 +113,9 @@ def _ser(t):
 
 
 def replay(case, ctx):
+    if "states" in case:
+        check_metric_reuse([pauli.PTab.from_labels(l) for l in case["states"]], case["dseed"], ctx)
+        return
     a = pauli.PTab.from_labels(case["a"]["labels"])
     b = pauli.PTab.from_labels(case["b"]["labels"])
     rng = np.random.default_rng(case.get("dseed", 0))
@@ -188,3 +194,41 @@ def check_pair(a, b, ref, ctx, rng, info, full=True, dseed=None):
                 ctx.violation("infidelity_metric_wrong", case, {"value": v, **det}, key="infid")
         except Exception as e:
             ctx.violation("infidelity_raises", case, {"exception": f"{type(e).__name__}: {e}"[:300]}, key="infid_exc")
+
+
+def check_metric_reuse(states, dseed, ctx):
+    """one Infidelity object used the way a long-lived metric is: many evaluations, its public `target` attribute reassigned
+    and the target state evolved in place in between.  Every value must be 1 - |<target now|state>|^2."""
+    from graphiq.state import QuantumState
+    from graphiq.metrics import Infidelity
+    drng = np.random.default_rng(dseed)
+    n = states[0].n
+    case = {"states": [t.labels() for t in states], "dseed": dseed}
+    ctx.case(("reuse", tuple(tuple(t.labels()) for t in states), dseed), True)
+    tabs = [gq.ptab_to_clifford(t, drng, random_destab_phase=True) for t in states]
+    cur = states[0].copy()
+    try:
+        met = Infidelity(QuantumState(tabs[0].copy(), rep_type="s"))
+        plan = [("eval", 1), ("eval", 2), ("eval", 1), ("target", 2), ("eval", 1), ("eval", 0), ("evolve", None), ("eval", 1), ("eval", 2),
+                ("target", 1), ("eval", 1), ("eval", 2)]
+        for what, i in plan:
+            if what == "target":
+                met.target = QuantumState(tabs[i].copy(), rep_type="s")
+                cur = states[i].copy()
+            elif what == "evolve":
+                q = int(drng.integers(n))
+                met.target.rep_data.apply_hadamard(q)
+                met.target.rep_data.apply_phase(q)
+                cur.h(q)
+                cur.s(q)
+            else:
+                v = float(met.evaluate(QuantumState(tabs[i].copy(), rep_type="s"), None))
+                ctx.count("metric_reuse:evaluations")
+                ref = pauli.overlap_sq(cur, states[i])
+                if abs(v - (1 - ref)) > TOL:
+                    ctx.violation("infidelity_metric_depends_on_earlier_evaluations", case,
+                                  {"value": v, "expected": 1 - ref, "target_now": cur.labels(), "state": states[i].labels(), "plan": plan},
+                                  key="infid_reuse")
+                    return
+    except Exception as e:
+        ctx.violation("infidelity_raises", case, {"exception": f"{type(e).__name__}: {e}"[:300], "workload": "metric reuse"}, key="infid_reuse_exc")
